@@ -16,6 +16,12 @@ for d, _, fs in os.walk(os.path.join(root, 'athlib')):
                 fns, consts = module_names(tree)
             except SyntaxError:
                 continue
-            out[rel] = {'functions': fns, 'constants': consts, 'fingerprints': module_fingerprints(tree)}
+            cv = {}
+            for st in tree.body:
+                if isinstance(st, (ast.Assign, ast.AnnAssign)) and st.value is not None:
+                    tg = st.targets if isinstance(st, ast.Assign) else [st.target]
+                    if len(tg) == 1 and isinstance(tg[0], ast.Name) and tg[0].id.startswith('_') and not tg[0].id.startswith('__'):
+                        cv[tg[0].id] = ast.unparse(st.value)[:200]
+            out[rel] = {'functions': fns, 'constants': consts, 'fingerprints': module_fingerprints(tree), 'private_values': cv}
 json.dump(out, open(os.path.join(os.path.dirname(os.path.abspath(__file__)), '..', 'spec', 'baseline_names.json'), 'w'), indent=0, sort_keys=True)
 print(len(out), 'modules')
